@@ -39,6 +39,19 @@ MACROS = {
 }
 
 
+def productions_of(g, adt, pinned):
+    """the productions that build a node: those whose declared result type is the node's type (`IfE: IfC = {..}`), which follows a
+    grammar whose productions were merged or split; the names on the pinned tree are the fallback for nodes built inside a
+    production of another type (Paren inside Term0)"""
+    last = adt.split("::")[-1]
+    names = [n for n, p in g.prods.items() if (p.get("ty") or "").strip().split("::")[-1] == last]
+    if not names:
+        names = [n for n in pinned if n in g.prods]
+    if not names:
+        raise AnalysisError("C16: no production of fun.lalrpop builds %s" % last)
+    return names
+
+
 class Lexer:
     def __init__(self, g):
         self.terms = []
@@ -82,6 +95,8 @@ def _hole_field(symrepr):
     rest = [x for x in m.group(2).split(".") if x]
     while rest and rest[-1] in _TRANSPARENT:
         rest.pop()
+    if rest == ["0"]:
+        rest = []       # the payload of an optional field is the field
     if rest:
         return m.group(1) + "." + ".".join(rest)
     return m.group(1)
@@ -134,7 +149,7 @@ def node_templates(ctx, adt, enum_fields):
                 fields[fd["name"]] = fixed[fd["name"]]
             else:
                 fields[fd["name"]] = Sym("self." + fd["name"], adt=fd.get("core") if fd.get("core") in fx.adts else None)
-        I = interp.Interp(fx, hooks=[hook, docmodel.doc_hook], max_depth=4, max_paths=256)
+        I = interp.Interp(fx, hooks=[hook, docmodel.doc_hook], max_depth=9, max_paths=256)
         for o in I.run(f, [Adt(adt, A["variants"][0]["name"], fields), cfg, Sym("alloc")]):
             if not isinstance(o.result, docmodel.Doc):
                 continue
@@ -230,6 +245,11 @@ def production_sequences(g, name):
                         binder_field.setdefault(b, m.group(1))
                 elif re.fullmatch(r"[a-z_][A-Za-z0-9_]*", part):
                     binder_field.setdefault(part, part)
+        named = [s_["name"] for s_ in a.symbols if s_["name"] and not s_["sym"].startswith("@")]
+        if named and not any(b in binder_field for b in named) and re.search(r"\b[a-z_][A-Za-z0-9_]*\s*\(", action) and not body:
+            # `=> helper(span(l, r), sort, fst, ..)`: which field a binder ends up in is decided inside the helper
+            raise AnalysisError("C16: production %s builds its node through a helper function (%s): the grammar reader cannot bind the "
+                                "production's symbols to the node's fields" % (name, " ".join(action.split())[:60]))
         seq = []
         for s in a.symbols:
             sym = s["sym"]
@@ -340,6 +360,7 @@ def rule_pgram(ctx):
                      "fields in the same order")
     n = 0
     for adt, (prods, enum_fields) in sorted(NODES.items()):
+        prods = productions_of(g, adt, prods)
         tmpls = node_templates(ctx, adt, enum_fields)
         if not tmpls:
             raise AnalysisError("C16: no print template folded for %s" % adt)
@@ -396,6 +417,7 @@ def rule_lex(ctx):
               "Term1": ["0", "1", "x", "(", "-"], "Term2": ["0", "1", "x", "X", "(", "-", "new"], "Term3": ["0", "1", "x", "X", "(", "-", "if", "let", "new", "label", "goto", "exit"]}
     n = 0
     for adt, (prods, enum_fields) in sorted(NODES.items()):
+        prods = productions_of(g, adt, prods)
         tmpls = node_templates(ctx, adt, enum_fields)
         f = ctx.fx.fns["<%s as scc_printer::types::Print>::print" % adt]
         seqs = []
